@@ -29,6 +29,7 @@ def run(ctx, db, tier):
     locks.check_guarded(ctx, db, 'C11.locks', {k: v for k, v in GUARDED.items() if k.startswith('cocls::thread_pool::')}, [TP], per_instance=False, floor=10)
     await_resume(ctx, db)
     run_resolves_once(ctx, db)
+    run_async_owned(ctx, db)
 
 
 def _enqueued_lambdas(db):
@@ -225,6 +226,11 @@ def stop(ctx, db):
                             bad = bad or ('a thread other than the caller is detached instead of joined', tr)
                         if not any(x.k == 'write' and 'thread_pool::_current' in (x.get('path') or '') and x.get('const') == 0 for x in tr[i:]):
                             bad = bad or ('the calling worker does not reset its current-pool marker', tr)
+            # the marker belongs to the calling thread: it is reset only by a worker of THIS pool, i.e. on a path that detached the caller
+            for i, it in enumerate(tr):
+                if it.k == 'write' and 'thread_pool::_current' in (it.get('path') or ''):
+                    if not any(x.k == 'call' and norm(x.get('callee')) == 'std::thread::detach' for x in tr[:i]):
+                        bad = bad or ('the current-pool marker of the calling thread is reset on a path where the caller is not one of this pool\'s workers (a worker of another pool would silently leave its pool)', tr)
         ctx.ob(rid, f, f['key'], bad is None, 'flag+notify_all under lock, join others outside the lock, detach self, tasks destroyed outside the lock' + ('' if not bad else ' -- ' + bad[0]),
                desc=(bad[0][:110] if bad else None), trace=fmt_trace(bad[1]) if bad and bad[1] else None)
 
@@ -253,7 +259,20 @@ def worker(ctx, db):
                         bad = bad or ('a task runs while the pool mutex is held', tr)
                     if not any(x.k == 'call' and norm(x.get('field') or '') == 'cocls::thread_pool::_queue' and norm(x.get('callee')).split('::')[-1] == 'pop' for x in tr[:i]):
                         bad = bad or ('a task runs before it was removed from the queue (it would run twice)', tr)
-        ctx.ob(rid, f, f['key'], bad is None, 'exit re-checked, pop before run, run unlocked' + ('' if not bad else ' -- ' + bad[0]), desc=bad[0] if bad else None, trace=fmt_trace(bad[1]) if bad else None)
+        # the task may have destroyed the pool (stop()/~thread_pool from a worker resets the thread's marker): after a task returns, the marker
+        # is tested before anything of the pool - its mutex included - is touched again
+        for tr in trs:
+            run_i = [i for i, it in enumerate(tr) if it.k == 'call' and (it.get('recv') or '').startswith('local:') and norm(it.get('callee') or '').endswith('operator()') and 'function' in norm(it.get('callee') or '')]
+            for i in run_i:
+                for x in tr[i + 1:]:
+                    if x.k == 'branch' and 'thread_pool::_current' in (x.get('path') or ''):
+                        break
+                    touch = (x.k in ('read', 'write') and (x.get('path') or '').startswith('this->')) or \
+                            (x.k == 'call' and ((x.get('recv') or '').startswith('this') or norm(x.get('callee') or '') in ('std::unique_lock::lock', 'std::mutex::lock')))
+                    if touch:
+                        bad = bad or ('after a task returned the pool is touched (%s) before the current-pool marker was tested: the task may have destroyed the pool' % (norm(x.get('callee') or '') or x.get('path')), tr)
+                        break
+        ctx.ob(rid, f, f['key'], bad is None, 'exit re-checked, pop before run, run unlocked, marker tested before the pool is touched again' + ('' if not bad else ' -- ' + bad[0]), desc=bad[0] if bad else None, trace=fmt_trace(bad[1]) if bad else None)
 
 
 def await_resume(ctx, db):
@@ -328,3 +347,33 @@ def run_resolves_once(ctx, db):
     f0 = cands[0]
     ctx.ob(rid, f0, f0['key'], seen_bad is None, 'run(fn) closure resolves exactly once per outcome (%d instantiations)' % len(cands) + ('' if not seen_bad else ' -- ' + seen_bad[1]),
            desc=seen_bad[1] if seen_bad else None, inst=seen_bad[0]['inst'] if seen_bad else None)
+
+
+def run_async_owned(ctx, db):
+    """run(async&): the queue item owns the unstarted coroutine and the promise; it is the item that starts the coroutine.  If the submitting
+    thread starts it and queues only the resulting handle, a stopped pool does not cancel the submission: the item\'s drop handler resumes
+    the handle inline on the thread that destroys the queue"""
+    rid = ctx.rule('C11.run-async-owned', 'WHO', 'thread_pool::run(async&): every start of the submitted coroutine (async::start / start_promise / detach) happens inside a closure that is handed to '
+                   'run_detached / enqueue (the owning queue item), never in the submitting thread', floor=1)
+    enq = {e['fn_key'] for _, e in _enqueued_lambdas(db)}
+    roots = [f for f in db.fns('cocls::thread_pool::run') if f['params'] and 'async<' in f['params'][0]['type']]
+    if not roots:
+        raise Broken('thread_pool::run(async&) not instantiated')
+    n = 0; seen = set()
+    for r in roots:
+        work = [(r, False)]
+        while work:
+            g, owned = work.pop()
+            owned = owned or g['key'] in enq
+            for e in g.events():
+                if e.k == 'call' and norm(e.get('callee') or '') in ('cocls::async::start', 'cocls::async::start_promise', 'cocls::async::detach', 'cocls::async::start_coro'):
+                    k = (g['key'], e['loc'])
+                    if k in seen:
+                        continue
+                    seen.add(k); n += 1
+                    ctx.ob(rid, g, e['loc'], owned, 'the submitted coroutine is started by the queue item that owns it', desc='run(async) starts the coroutine outside the owning queue item')
+                if e.k == 'lambda':
+                    for lf in db.closure_instances(g, e['fn_key']):
+                        work.append((lf, owned))
+    if n == 0:
+        raise Broken('thread_pool::run(async&) never starts the coroutine: anchor changed')
